@@ -12,6 +12,7 @@ CONSTANTS
   LogV = {}
   RefV = {}
   SuiV = {}
+  StageFolds = FALSE
   MaxOps = 5
   MaxDepth = 3
   MaxCommits = 1
